@@ -534,6 +534,11 @@ func (l *Lexer) prevChar() byte {
 }
 
 func (l *Lexer) readChar() {
+	// the end of the input was already reached, stay there
+	if l.readPos > len(l.input) {
+		return
+	}
+
 	l.prevLine = l.line
 
 	if l.readPos >= len(l.input) {
